@@ -1916,7 +1916,12 @@ class LLParser:
                             parser_summary, cycle_data, nullables)
 
                 if cur_symbol in processed_symbols:
-                    _next_prod(stack)
+                    if cur_symbol in nullables:
+                        # the symbol itself is verified already, but it is nullable,
+                        # so the next symbol may be reached w/o consuming tokens
+                        _next_symbol(stack)
+                    else:
+                        _next_prod(stack)
                     continue
                 # cur_symbol is non-terminal. May need to go deeper
                 if cur_symbol_id > 0:
